@@ -82,6 +82,10 @@ func (c cfg) spec() *hlib.RunSpec {
 		rs.Flags = map[string]string{"rate": rate, "distribution": "none"}
 	case "staged":
 		rs.Flags = map[string]string{"stages": "0s:1,300ms:1", "iterationFrequency": "100ms", "distribution": "none"}
+	case "ramp":
+		rs.Flags = map[string]string{"start-rate": "1/100ms", "end-rate": "2/100ms", "ramp-duration": "300ms", "distribution": "none"}
+	case "gaussian":
+		rs.Flags = map[string]string{"volume": "60000", "repeat": "1m", "iteration-frequency": "100ms", "peak": "0s", "standard-deviation": "1h", "distribution": "none"}
 	case "file":
 		rs.FileYAML = fmt.Sprintf(fileYAML, c.maxDur, c.conc, c.limit)
 	case "file-users-first":
@@ -307,6 +311,8 @@ func scenariosFor(tier string) []vrt.Scenario {
 	add(b, cfg{mode: "constant", maxDur: ms(2000), cancelAt: ms(150), body: "sleeplong"})
 	add(b-1, cfg{mode: "file-users-first", maxDur: ms(2000), cancelAt: never, body: "sleeplong", conc: 2})
 	if quick {
+		add(0, cfg{mode: "ramp", maxDur: ms(500), cancelAt: never, body: "sleep30"})
+		add(0, cfg{mode: "gaussian", maxDur: ms(500), cancelAt: never, body: "sleep30"})
 		add(0, cfg{mode: "staged", maxDur: ms(2000), cancelAt: never, body: "sleep30"})
 		add(0, cfg{mode: "file", maxDur: ms(2000), cancelAt: never, body: "sleep30"})
 		add(0, cfg{mode: "constant", maxDur: ms(500), cancelAt: never, body: "instant", setup: "fail"})
@@ -314,7 +320,7 @@ func scenariosFor(tier string) []vrt.Scenario {
 		return out
 	}
 	// full product at b=1
-	for _, mode := range []string{"constant", "users", "staged", "file", "file-users-first"} {
+	for _, mode := range []string{"constant", "users", "staged", "file", "file-users-first", "ramp", "gaussian"} {
 		for _, body := range []string{"instant", "sleep30", "sleeplong", "forever"} {
 			if body == "instant" && (mode == "users" || strings.HasPrefix(mode, "file")) {
 				continue // users workers with instant bodies never let virtual time pass
